@@ -728,3 +728,231 @@ Proof.
   - exact Hrt.
   - exact Hget.
 Qed.
+
+(* ------------------------------------------------------------------ *)
+(* the shape of every element's text                                    *)
+(* ------------------------------------------------------------------ *)
+Lemma frac_trim_nil : forall k v, 0 <= v < 10 ^ Z.of_nat k -> frac_trim k v = [] -> v = 0.
+Proof.
+  intros [|k] v H E.
+  - change (10 ^ Z.of_nat 0) with 1 in H. lia.
+  - rewrite frac_trim_S in E. destruct (v =? 0) eqn:E0; [lia|discriminate].
+Qed.
+
+Lemma frac_trim_digits : forall k v, 0 <= v < 10 ^ Z.of_nat k -> all_digits (frac_trim k v) = true.
+Proof.
+  induction k as [|k IH]; intros v H; [reflexivity|]. rewrite frac_trim_S.
+  destruct (v =? 0); [reflexivity|]. destruct (lead_digit k v H) as [Hq Hr].
+  unfold all_digits. cbn [forallb]. rewrite (digit_is_digit _ Hq). apply (IH _ Hr).
+Qed.
+
+Lemma frac_trim_last : forall k v, 0 <= v < 10 ^ Z.of_nat k -> frac_trim k v <> [] ->
+  byte_eqb (last (frac_trim k v) "0"%byte) "0"%byte = false.
+Proof.
+  induction k as [|k IH]; intros v H Hne; [contradiction Hne; reflexivity|].
+  rewrite frac_trim_S in *. destruct (v =? 0) eqn:E0; [contradiction Hne; reflexivity|].
+  destruct (lead_digit k v H) as [Hq Hr].
+  destruct (frac_trim k (v mod 10 ^ Z.of_nat k)) as [|b l] eqn:Et.
+  - cbn [last]. apply (frac_trim_nil _ _ Hr) in Et.
+    destruct (digit_ok _ Hq) as (_ & _ & _ & _ & H0). rewrite H0.
+    pose proof (pow10_pos k) as Hp. set (p := 10 ^ Z.of_nat k) in *.
+    pose proof (Z.div_mod v p ltac:(lia)) as E. rewrite Et in E.
+    assert (v / p <> 0) by (intros Ez; rewrite Ez in E; lia). lia.
+  - change (last (digit (v / 10 ^ Z.of_nat k) :: b :: l) "0"%byte) with (last (b :: l) "0"%byte).
+    rewrite <- Et. apply (IH _ Hr). rewrite Et. discriminate.
+Qed.
+
+Lemma frac_trim_length : forall k j v, (j <= k)%nat -> 0 <= v < 10 ^ Z.of_nat k ->
+  v mod 10 ^ Z.of_nat (k - j) = 0 -> (length (frac_trim k v) <= j)%nat.
+Proof.
+  induction k as [|k IH]; intros j v Hj H Hm; [cbn; lia|].
+  rewrite frac_trim_S. destruct (v =? 0) eqn:E0; [cbn; lia|].
+  destruct j as [|j].
+  - exfalso. rewrite Nat.sub_0_r in Hm. rewrite Z.mod_small in Hm by exact H. lia.
+  - cbn [length]. apply le_n_S. destruct (lead_digit k v H) as [_ Hr].
+    apply IH; [lia|exact Hr|].
+    change (S k - S j)%nat with (k - j)%nat in Hm.
+    pose proof (pow10_pos (k - j)) as He. pose proof (pow10_pos k) as Hp.
+    assert (Hd : (10 ^ Z.of_nat (k - j) | 10 ^ Z.of_nat k)).
+    { exists (10 ^ Z.of_nat j). rewrite <- Z.pow_add_r by lia. f_equal. lia. }
+    apply Z.mod_divide; [lia|]. apply Z.mod_divide in Hm; [|lia].
+    rewrite Z.mod_eq by lia. apply Z.divide_sub_r; [exact Hm|].
+    apply Z.divide_mul_l. exact Hd.
+Qed.
+
+(* what the text of a numeric zone needs: a two-digit hour, and not Go's +00:00:-SS *)
+Definition zone_prints (sh : zshape) (off : Z) : Prop :=
+  -360000 < off < 360000 /\ ~ (zs_seconds sh = true /\ -60 < off < 0).
+Definition shape_hyp (off : Z) (e : elem) : Prop :=
+  match e with EZone _ sh => zone_prints sh off | _ => True end.
+
+Lemma dec2_shape : forall v, 0 <= v < 100 -> (length (dec2 v) =? 2)%nat && all_digits (dec2 v) = true.
+Proof.
+  intros v H. unfold dec2. rewrite decn_length, decn_digits by (change (10 ^ Z.of_nat 2) with 100; lia).
+  reflexivity.
+Qed.
+
+Lemma zone_shape : forall iso sh off, zone_prints sh off ->
+  elem_shape (EZone iso sh) (render_zone iso sh off) = true.
+Proof.
+  intros iso sh off (Hr & Hirr). unfold elem_shape, render_zone.
+  destruct (iso && (off =? 0)) eqn:Hiso.
+  - apply andb_prop in Hiso. destruct Hiso as [-> _]. reflexivity.
+  - cbv zeta. apply orb_true_iff. right.
+    set (zone := Z.quot off 60). set (neg := zone <? 0).
+    set (zone' := if neg then - zone else zone).
+    set (absoff := if neg then - off else off).
+    assert (Hz : 0 <= zone' < 6000) by (subst zone' neg zone; destruct (Z.quot off 60 <? 0) eqn:E; lia).
+    assert (Hh : 0 <= zone' / 60 < 100) by lia.
+    assert (Hm : 0 <= zone' mod 60 < 100) by lia.
+    assert (Hs : zs_seconds sh = true -> 0 <= Z.rem absoff 60 < 100).
+    { intros Es. assert (~ -60 < off < 0) by tauto.
+      subst absoff neg zone. destruct (Z.quot off 60 <? 0) eqn:E; lia. }
+    assert (Sg : byte_eqb (if neg then "-"%byte else "+"%byte) "+"%byte
+                 || byte_eqb (if neg then "-"%byte else "+"%byte) "-"%byte = true)
+      by (destruct neg; reflexivity).
+    pose proof (digit_is_digit (zone' / 60 / 10) ltac:(lia)) as D1.
+    pose proof (digit_is_digit ((zone' / 60) mod 10) ltac:(lia)) as D2.
+    pose proof (digit_is_digit (zone' mod 60 / 10) ltac:(lia)) as D3.
+    pose proof (digit_is_digit ((zone' mod 60) mod 10) ltac:(lia)) as D4.
+    destruct sh; cbn [zs_colon zs_minutes zs_seconds] in *; try specialize (Hs eq_refl);
+      try rewrite (append_int2_nonneg _ (proj1 Hs)); rewrite !dec2_eq; cbn [app numeric_zone_shape];
+      rewrite Sg; unfold all_digits; cbn [forallb andb]; rewrite ?D1, ?D2, ?D3, ?D4; cbn [andb];
+      try reflexivity;
+      rewrite (digit_is_digit (Z.rem absoff 60 / 10)), (digit_is_digit (Z.rem absoff 60 mod 10)) by lia;
+      reflexivity.
+Qed.
+
+Lemma frac_shape : forall nine n comma ns, 0 <= ns < 1000000000 ->
+  elem_shape (EFrac nine n comma) (render_frac nine n comma ns) = true.
+Proof.
+  intros nine n comma ns Hns. unfold elem_shape, render_frac.
+  pose proof (frac_unit_pos n) as Hu. destruct nine.
+  - pose proof (trunc_range (frac_unit n) ns Hu Hns) as Hw. set (w := ns / frac_unit n * frac_unit n) in *.
+    destruct (frac_trim 9 w) as [|b l] eqn:Et; [reflexivity|].
+    rewrite byte_eqb_refl, <- Et.
+    rewrite (frac_trim_digits 9 w Hw), (frac_trim_last 9 w Hw) by (rewrite Et; discriminate).
+    assert (L1 : (1 <= length (frac_trim 9 w))%nat) by (rewrite Et; cbn; lia).
+    assert (L2 : (length (frac_trim 9 w) <= frac_digits n)%nat).
+    { apply frac_trim_length; [apply frac_digits_le|exact Hw|].
+      subst w. unfold frac_unit. apply Z_mod_mult. }
+    rewrite (proj2 (Nat.leb_le _ _) L1), (proj2 (Nat.leb_le _ _) L2). reflexivity.
+  - rewrite byte_eqb_refl, decn_length, Nat.eqb_refl.
+    rewrite decn_digits by (apply frac_kept_range; exact Hns). reflexivity.
+Qed.
+
+Lemma name_shapes : forall m w, 1 <= m <= 12 -> 0 <= w <= 6 ->
+  existsb (bytes_eqb (name_of long_months (m - 1))) long_months = true /\
+  existsb (bytes_eqb (name_of short_months (m - 1))) short_months = true /\
+  existsb (bytes_eqb (name_of long_days w)) long_days = true /\
+  existsb (bytes_eqb (name_of short_days w)) short_days = true.
+Proof.
+  intros m w Hm Hw.
+  destruct (month_cases m Hm) as [E|[E|[E|[E|[E|[E|[E|[E|[E|[E|[E|E]]]]]]]]]]]; subst m;
+  destruct (wday_cases w Hw) as [E|[E|[E|[E|[E|[E|E]]]]]]; subst w; repeat split; reflexivity.
+Qed.
+
+Lemma elem_shape_render : forall e t, tm_ok t -> shape_hyp (t_off t) e ->
+  elem_shape e (render_elem e t) = true.
+Proof.
+  intros e t Ht He.
+  pose proof (ok_year _ Ht) as ok_year0. pose proof (ok_month _ Ht) as ok_month0.
+  pose proof (ok_day _ Ht) as ok_day0. pose proof (ok_yday _ Ht) as ok_yday0.
+  pose proof (ok_wday _ Ht) as ok_wday0. pose proof (ok_hour _ Ht) as ok_hour0.
+  pose proof (ok_min _ Ht) as ok_min0. pose proof (ok_sec _ Ht) as ok_sec0.
+  pose proof (ok_nsec _ Ht) as ok_nsec0.
+  pose proof (hour12_range _ ok_hour0) as H12.
+  destruct (name_shapes _ _ ok_month0 ok_wday0) as (N1 & N2 & N3 & N4).
+  destruct e; unfold render_elem; try exact N1; try exact N2; try exact N3; try exact N4.
+  - apply one_or_two_dec_min. lia.
+  - apply dec2_shape. lia.
+  - apply one_or_two_dec_min. lia.
+  - (* _2 *) unfold elem_shape, dec_min. destruct (t_day t <? 10) eqn:E.
+    + cbn. apply digit_is_digit. lia.
+    + rewrite dec2_eq. destruct (digit_ok (t_day t / 10) ltac:(lia)) as (D1 & _ & _ & _ & D0).
+      rewrite D1, D0, (digit_is_digit (t_day t mod 10)) by lia.
+      assert (E0 : (t_day t / 10 =? 0) = false) by lia. rewrite E0. rewrite orb_true_r. reflexivity.
+  - apply dec2_shape. lia.
+  - (* __2 *) unfold elem_shape, dec_min.
+    destruct (t_yday t <? 100) eqn:E100; [destruct (t_yday t <? 10) eqn:E10|].
+    + cbn. rewrite digit_is_digit by lia. reflexivity.
+    + rewrite dec2_eq. cbn [app]. rewrite byte_eqb_refl.
+      destruct (digit_ok (t_yday t / 10) ltac:(lia)) as (D1 & _ & _ & _ & D0).
+      rewrite D1, D0, (digit_is_digit (t_yday t mod 10)) by lia.
+      assert (E0 : (t_yday t / 10 =? 0) = false) by lia. rewrite E0.
+      cbn. rewrite orb_true_r. reflexivity.
+    + cbn [app]. rewrite !decn_S. cbn [decn].
+      change (10 ^ Z.of_nat 2) with 100. change (10 ^ Z.of_nat 1) with 10. change (10 ^ Z.of_nat 0) with 1.
+      destruct (digit_ok (t_yday t / 100) ltac:(lia)) as (D1 & _ & _ & _ & D0).
+      rewrite D1, D0, (digit_is_digit (t_yday t mod 100 / 10)), (digit_is_digit ((t_yday t mod 100) mod 10 / 1)) by lia.
+      assert (E0 : (t_yday t / 100 =? 0) = false) by lia. rewrite E0.
+      cbn. rewrite !orb_true_r. reflexivity.
+  - unfold elem_shape. rewrite decn_length, decn_digits by (change (10 ^ Z.of_nat 3) with 1000; lia). reflexivity.
+  - apply dec2_shape. lia.
+  - apply one_or_two_dec_min. lia.
+  - apply dec2_shape. lia.
+  - apply one_or_two_dec_min. lia.
+  - apply dec2_shape. lia.
+  - apply one_or_two_dec_min. lia.
+  - apply dec2_shape. lia.
+  - unfold elem_shape. rewrite decn_length, decn_digits by (change (10 ^ Z.of_nat 4) with 10000; lia). reflexivity.
+  - apply dec2_shape. lia.
+  - destruct (12 <=? t_hour t); reflexivity.
+  - destruct (12 <=? t_hour t); reflexivity.
+  - reflexivity.
+  - apply zone_shape. exact He.
+  - apply frac_shape. assumption.
+Qed.
+
+
+Lemma render_items_shape : forall its t, tm_ok t ->
+  (forall e, In (El e) its -> shape_hyp (t_off t) e) ->
+  exists pieces, render_items its t = concat pieces /\ Forall2 piece_ok its pieces.
+Proof.
+  induction its as [|it more IH]; intros t Ht Hs.
+  - exists []. split; [reflexivity|constructor].
+  - destruct (IH t Ht) as (ps & E & F); [intros e He; apply Hs; right; exact He|].
+    exists (render_item t it :: ps). split.
+    + cbn [render_items concat]. rewrite E. reflexivity.
+    + constructor; [|exact F]. destruct it as [c|e]; [reflexivity|].
+      apply elem_shape_render; [exact Ht|]. apply Hs. left. reflexivity.
+Qed.
+
+
+Lemma format_time_shape : forall layout sec nsec off ab,
+  instant_ok sec nsec off -> zone_printable (tokens layout) off = true ->
+  exists text pieces,
+    format_time layout sec nsec off ab = Some text /\ text = concat pieces /\
+    Forall2 piece_ok (tokens layout) pieces.
+Proof.
+  intros layout sec nsec off ab Hi Hz.
+  pose proof (tm_of_ok sec nsec off ab (instant_in_range _ _ _ ab Hi)) as Ht.
+  assert (Hoff : t_off (tm_of sec nsec off ab) = off) by apply (tm_of_date sec nsec off ab).
+  destruct (render_items_shape (tokens layout) _ Ht) as (ps & E & F).
+  - intros e He. rewrite Hoff. destruct e; try exact I. split; [apply Hi|].
+    intros [Hs Hneg]. unfold zone_printable, zone_has_seconds in Hz.
+    rewrite (has_elem_in _ _ (EZone iso sh) He Hs) in Hz. lia.
+  - exists (render_items (tokens layout) (tm_of sec nsec off ab)), ps.
+    split; [apply format_time_defined; exact Hi|]. split; assumption.
+Qed.
+
+Lemma instant_okb_ok : forall sec nsec off, instant_okb sec nsec off = true -> instant_ok sec nsec off.
+Proof. intros sec nsec off H. unfold instant_okb in H. unfold instant_ok. lia. Qed.
+
+Require Coq.Strings.String.
+Import Coq.Strings.String.StringSyntax.
+
+(* Go's own irregularity: an offset in (-60 s, 0) under a seconds-bearing zone element is printed
+   as +00:00:-SS, which does not read back; the round trip FAILS there (hence zone_fits) *)
+Lemma parse_back_subminute_refuted :
+  exists layout sec nsec off ab text,
+    layout_roundtrips layout = true /\ instant_ok sec nsec off /\
+    off mod zone_unit (tokens layout) = 0 /\
+    format_time layout sec nsec off ab = Some text /\
+    text = lit "1969-12-31T23:59:59+00:00:-01" /\
+    parse_time layout text = None.
+Proof.
+  exists (lit "2006-01-02T15:04:05Z07:00:00"), 0, 0, (-1), (lit "X"), (lit "1969-12-31T23:59:59+00:00:-01").
+  split; [vm_compute; reflexivity|]. split; [apply instant_okb_ok; vm_compute; reflexivity|].
+  repeat split; vm_compute; reflexivity.
+Qed.
